@@ -2,6 +2,7 @@ package pcv
 
 import (
 	"fmt"
+	"go/constant"
 	"go/token"
 	"go/types"
 
@@ -186,6 +187,7 @@ func runC13(c *Ctx) {
 		}
 		nameFld := p.Field("types", "ProcessState", "Name")
 		c.Check(p.Deep(StoreTo("state.Name", nameFld)).May(f), r2, "rename:state-name", FirstPos(p, f), "state name updated", "the rename function does not update the name in the state record")
+		s.checkRenameKeepsRecord(c, r2, f)
 		c.Check(p.Deep(StoreTo("conf.ReplicaName", s.FReplicaName)).May(f), r2, "rename:replica-name", FirstPos(p, f), "replica name updated", "the rename function does not update ReplicaName")
 	}
 	c.Check(nRen == 1, r2, "rename:function", "", "one rename function", fmt.Sprintf("%d rename functions found", nRen))
@@ -451,6 +453,43 @@ func runC13(c *Ctx) {
 				}
 			}
 		})
+		// decision table: bare name for Replicas <= 1, otherwise "<Name>-<zero padded ReplicaNum>"
+		c.RunTable(r5, p.FuncKey(calcName)+":table", &TableSpec{Fn: calcName, Rename: func(raw string) string {
+			switch raw {
+			case "p0.Replicas":
+				return "replicas"
+			case "p0.Name":
+				return "name"
+			case "p0.ReplicaNum":
+				return "num"
+			}
+			return ""
+		}, ExtraInts: []int64{0, 1, 2, 10}, ExternEffect: func(obj *types.Func, cc *ssa.CallCommon) (string, bool) {
+			if obj.Pkg() != nil && obj.Pkg().Path() == "fmt" && obj.Name() == "Sprintf" {
+				return "Sprintf", true
+			}
+			return "", false
+		}}, &TableCheck{
+			Keys: map[string][]constant.Value{"replicas": Ints(-1, 0, 1, 2, 3, 10, 11)},
+			Judge: func(val map[string]constant.Value, l *Leaf) (bool, string, string) {
+				r := VInt(val, "replicas")
+				obs := fmt.Sprint(l.Returns)
+				if r <= 1 {
+					ok := len(l.Returns) == 1 && l.Returns[0].K == avLazy && l.Returns[0].Key == "name" && !l.HasEffect("Sprintf")
+					return ok, "the bare Name", obs
+				}
+				ok := false
+				for _, e := range l.Effects {
+					if e.Name == "Sprintf" && len(e.Args) >= 1 && e.Args[0].K == avConst {
+						if f := constant.StringVal(e.Args[0].C); f == "%s-%0*d" {
+							ok = true
+						}
+						obs = "Sprintf(" + e.Args[0].String() + ", ...)"
+					}
+				}
+				return ok, "Sprintf(\"%s-%0*d\", Name, width, ReplicaNum)", obs
+			},
+		})
 		c.Check(widthFromReplicas, r5, p.FuncKey(calcName)+":width", FirstPos(p, calcName), "zero-padding width derived from Replicas", "the zero-padding width is not derived from Replicas (names of one replica set would have different widths)")
 	}
 
@@ -619,5 +658,30 @@ func (s *Sel) checkRemovalStopsRegistered(c *Ctx, rule string) {
 			}}), nil)
 			c.PathCheck(r, rule, p.FuncKey(f)+":registered-always-stopped", p.InstrPos(ifi), "a registered instance is always stopped", "the removal skips the stop for a registered instance in some states (e.g. restart back-off or pending): its supervision loop survives the removal and launches the command again, unlisted")
 		}
+	}
+}
+
+// checkRenameKeepsRecord (C09, C13): where the rename function re-inserts the state record under the new key, the
+// inserted value is the record that was registered (not a copy: the instance keeps writing to the original), and
+// the record's Name is stored on every path through that insertion, whether or not an instance is registered.
+func (s *Sel) checkRenameKeepsRecord(c *Ctx, rule string, f *ssa.Function) {
+	p := c.P
+	nameFld := p.Field("types", "ProcessState", "Name")
+	nameStore := p.Deep(StoreTo("state.Name", nameFld))
+	n := 0
+	for _, in := range DirectSites(f, MapUpdateOn("w", s.FStates)) {
+		mu, ok := in.(*ssa.MapUpdate)
+		if !ok {
+			continue
+		}
+		n++
+		_, isCopy := stripConv(mu.Value).(*ssa.Alloc)
+		c.Check(!isCopy, rule, "rename:same-record", p.InstrPos(mu), "the registered record itself is moved", "the rename function registers a copy of the state record under the new name: the instance keeps updating the original, so after it ends the registry reports the state frozen at rename time (e.g. Running with a stale exit code)")
+		before := MustPrecede(f, nameStore, func(x ssa.Instruction) bool { return x == in }, nil)
+		after := MustFollow([]Pt{after(in)}, nameStore, nil)
+		c.Check(before.OK || after.OK, rule, "rename:name-on-every-path", p.InstrPos(mu), "the record's name is updated whenever it is moved", "the state record is moved to the new key on a path that does not update its Name (e.g. only when an instance is registered): a finished or disabled survivor is listed under its old name and cannot be addressed by the listed name")
+	}
+	if n == 0 {
+		c.Bad(rule, "rename:state-insert", FirstPos(p, f), "the rename function does not insert the state record under the new name")
 	}
 }
